@@ -38,18 +38,21 @@ struct Spec {
     /// after the extension setter: 0 nothing, 1 the make setter with None, 2 the assertion setter with
     /// None, 3 the make setter with empty outputs (setter calls that have nothing to add)
     followup: u8,
+    /// order of the attested key's parameters: 0 as the builder emits them (crv, x, y), 1 reversed,
+    /// 2 rotated - a COSE key is a map, an imported key may list its members in any order
+    key_order: u8,
 }
 
 impl Spec {
     fn json(&self, index: u64) -> Value {
         json!({"index": index, "rp": self.rp, "counter": self.counter, "up": self.up, "uv": self.uv, "set_be_bs": self.be_bs,
-            "attested": self.attested.map(|(a, l)| json!({"aaguid": hex_short(&a), "credential_id_len": l})), "extensions": format!("{:?}", self.ext).chars().take(60).collect::<String>(), "second_setter_call_with_nothing_to_add": self.followup})
+            "attested": self.attested.map(|(a, l)| json!({"aaguid": hex_short(&a), "credential_id_len": l})), "extensions": format!("{:?}", self.ext).chars().take(60).collect::<String>(), "second_setter_call_with_nothing_to_add": self.followup, "attested_key_parameter_order": self.key_order})
     }
 }
 
 fn gen(seed: u64, idx: u64) -> Spec {
     let mut rng = Rng::derive(seed, "c12", idx);
-    let rps = ["example.com", "", "a", "xn--bcher-kva.de", "login.example.co.uk", "\u{1F600}.example", "future.1password.com"];
+    let rps = ["example.com", "", "a", "xn--bcher-kva.de", "login.example.co.uk", "\u{1F600}.example", "future.1password.com", "example.com.", ".", "EXAMPLE.com", " example.com", "example.com/"];
     let id_lens = [0usize, 1, 16, 32, 64, 255, 256, 1023, 4096, 65_535];
     let mut aag = [0u8; 16];
     aag.copy_from_slice(&rng.bytes(16));
@@ -80,6 +83,7 @@ fn gen(seed: u64, idx: u64) -> Spec {
             _ => Ext::None,
         },
         followup: if rng.chance(1, 4) { rng.range(1, 3) as u8 } else { 0 },
+        key_order: if rng.chance(1, 3) { rng.range(1, 2) as u8 } else { 0 },
     }
 }
 
@@ -110,7 +114,12 @@ fn build(s: &Spec, idx: u64) -> Result<Built, String> {
         // a real EC2 key
         let (pk, x, y) = crate::util::seeded_passkey(&mut rng, "k", &[1], None, None, None);
         let _ = pk;
-        let key = CoseKeyBuilder::new_ec2_pub_key(iana::EllipticCurve::P_256, x, y).algorithm(iana::Algorithm::ES256).build();
+        let mut key = CoseKeyBuilder::new_ec2_pub_key(iana::EllipticCurve::P_256, x, y).algorithm(iana::Algorithm::ES256).build();
+        match s.key_order {
+            1 => key.params.reverse(),
+            2 => key.params.rotate_left(1),
+            _ => {}
+        }
         key_bytes = key.clone().to_vec().map_err(|e| format!("{e:?}"))?;
         cred_id = rng.bytes(len);
         let acd = AttestedCredentialData::new(Aaguid::from(aaguid), cred_id.clone(), key).map_err(|e| format!("constructor refused a {len}-byte id: {e:?}"))?;
